@@ -118,4 +118,23 @@ theorem irun_node {limit : Nat} {c : Ctx} {w : Wid} {addrs : List Addr} :
       rw [h2, h1]
       cases ev <;> rfl
 
+/-- THE FULL STATEMENT (false as it stands: `MW.Lemmas.RemoveMidCex.not_interleavedProjects`): from C01's invariant for the
+    full keystore table, with `w` flagged and every other keystore's wallet ready, ANY history of removal steps,
+    announced node states (extensions and reorganisations), unconfirmed transactions and restarts that ends with the
+    finishing step leaves C01's invariant for the table without `w`, on the chain the follower was last told about. -/
+def InterleavedProjects : Prop :=
+  ∀ (limit : Nat) (c : Ctx) (w : Wid) (addrs : List Addr) (own' : Own) (G : Block) (x0 x : ISt) (evs : List IEv)
+    (ws' : List Wid),
+    limit > 0 → KeysNodup c.own →
+    MW.Lemmas.RemoveInv.RemHyp c w addrs own' c.node.chain → GoodChain c.node.chain → c.node.chain[0]? = some G →
+    x0.node = c.node → x0.fin = false → x0.v.best = tipMeta c.node.chain →
+    Inv c x0.s c.node.chain → KeysNodup x0.s.credits → KeysNodup x0.s.unspent →
+    (∀ e ∈ x0.s.pendCred, e.1.1 ∉ idsOf (occs c.node.chain)) →
+    AMap.get x0.s.status w = some ⟨none, true⟩ →
+    (∀ a w' ch, AMap.get c.own a = some (w', ch) → w' ≠ w → (readyWallets x0.s c.wallets).contains w' = true) →
+    (∀ ev ∈ evs, EvOK c.own G c.node.known ev) →
+    (∀ y ∈ ws', y ∈ c.wallets) →
+    irun limit c w addrs x0 evs = some x → x.fin = true →
+    Inv { c with own := own', wallets := ws', node := x.node } x.s x.node.chain
+
 end MW.Lemmas.RemoveInterleave
